@@ -22,7 +22,42 @@ ERRORS = ("the user error is returned verbatim", "a failing action must end", "n
           "states untouched after a failing action", "number of user-action calls", "user error returned verbatim")
 
 
-def run_e2(pid, tier, assumptions, grammars=None, relevant=None):
+def classify(want, got):
+    """kind of a whole-parse mismatch and the id of the first call that differs"""
+    import re
+    def calls(s):
+        return re.findall(r"(\d+)\(([^)]*)\)", s.split("|", 1)[1] if "|" in s else "")
+    cw, cg = calls(want), calls(got)
+    for (iw, aw), (ig, ag) in zip(cw, cg):
+        if iw != ig:
+            return "order", iw
+        if aw != ag:
+            return "args", iw
+    if len(cw) != len(cg):
+        return "order", (cw + cg)[min(len(cw), len(cg))][0]
+    return "result", "-"
+
+
+def whole_parse_stage(pid, tier, grammars, kinds, maxlen_quick=5, maxlen_thorough=6):
+    """Native whole-parse validation (vlib/e2native): returns (traces, violations[(key, text, data)])"""
+    from vlib import e2native
+    gs = [g for g in A.action_grammars() if g.name in grammars]
+    n, mism = e2native.run(gs, maxlen_quick if tier == "quick" else maxlen_thorough)
+    out, seen = [], set()
+    for gname, toks, fail, want, got in mism:
+        kind, cid = classify(want, got)
+        if kind not in kinds:
+            continue
+        key = "whole:%s:%s:%s" % (gname, cid, kind)
+        if key in seen:
+            continue
+        seen.add(key)
+        out.append((key, "whole parse of %s on %s (failing call: %s): specification `%s`, real parser `%s`" % (gname, toks, fail, want.strip(), got.strip()),
+                    {"grammar": gname, "tokens": toks, "fail_at": fail, "expected": want, "observed": got}))
+    return n, out
+
+
+def run_e2(pid, tier, assumptions, grammars=None, relevant=None, whole=None):
     gs = [g for g in A.action_grammars() if grammars is None or g.name in grammars]
     crate, hs, notes = e2.prepare(gs, "e2_" + pid.lower())
     names = [h for h, _, _ in hs]
@@ -39,13 +74,37 @@ def run_e2(pid, tier, assumptions, grammars=None, relevant=None):
     if notes:
         for n in notes:
             print("NOTE: " + n)
+    if whole:
+        import json, os
+        known = K.load_known_findings().get(pid, {})
+        ntr, viol = whole_parse_stage(pid, tier, whole[0], whole[1])
+        nv = 0
+        for key, text, data in viol:
+            if key in known:
+                print("KNOWN-FINDING: property=%s %s" % (pid, text[:300]))
+                continue
+            nv += 1
+            path = K.save_replay(pid, key.replace(":", "_"), {"case.json": json.dumps(data, indent=1)})
+            print("VIOLATION property=%s replay=%s" % (pid, path))
+            print("  " + text)
+        evp = os.path.join(K.VERIF, "evidence", pid + ".json")
+        ev = json.load(open(evp))
+        ev["coverage"]["traces_validated_against_impl"] = ev["coverage"].get("traces_validated_against_impl", 0) + ntr
+        ev["coverage"]["whole_parse_validation"] = {"grammars": list(whole[0]), "runs": ntr, "mismatch_kinds_counted": list(whole[1]),
+                                                    "what": "real generated parser (driver+tables+reduce code) on every sentence up to the length bound and every failing-call position; log and result vs the specification evaluated over the derivation tree"}
+        ev["violations"] = ev.get("violations", 0) + nv
+        json.dump(ev, open(evp, "w"), indent=1)
+        K.log("[%s] whole-parse validation: %d native runs, %d new mismatch(es)" % (pid, ntr, nv))
+        if nv:
+            return 1
     return rc
 
 
 def run(tier):
     # values, argument order, exactly-once, default actions, bindings; locations are C06's, errors C17's
     return run_e2(PID, tier, ASSUME, grammars=("act_plain", "act_inline", "act_fallible", "act_loc"),
-                  relevant=lambda c: not any(x in c for x in LOCATION))
+                  relevant=lambda c: not any(x in c for x in LOCATION),
+                  whole=(("act_plain", "act_fallible", "act_reps"), ("order", "args", "result")))
 
 
 def replay(path):
